@@ -58,38 +58,9 @@ func readAs[T plugin.LintStatement](name string) plugReader {
 	}}
 }
 
-// one instantiation per member of the plugin.LintStatement union, in the order of the union
-// (the check compares these names with the regenerated Gen/CodecPlugin.v lint_statement_types)
-var plugReaders = []plugReader{
-	readAs[*ast.AclDeclaration]("AclDeclaration"),
-	readAs[*ast.BackendDeclaration]("BackendDeclaration"),
-	readAs[*ast.DirectorDeclaration]("DirectorDeclaration"),
-	readAs[*ast.TableDeclaration]("TableDeclaration"),
-	readAs[*ast.SubroutineDeclaration]("SubroutineDeclaration"),
-	readAs[*ast.PenaltyboxDeclaration]("PenaltyboxDeclaration"),
-	readAs[*ast.RatecounterDeclaration]("RatecounterDeclaration"),
-	readAs[*ast.BlockStatement]("BlockStatement"),
-	readAs[*ast.ImportStatement]("ImportStatement"),
-	readAs[*ast.IncludeStatement]("IncludeStatement"),
-	readAs[*ast.DeclareStatement]("DeclareStatement"),
-	readAs[*ast.SetStatement]("SetStatement"),
-	readAs[*ast.UnsetStatement]("UnsetStatement"),
-	readAs[*ast.RemoveStatement]("RemoveStatement"),
-	readAs[*ast.IfStatement]("IfStatement"),
-	readAs[*ast.SwitchStatement]("SwitchStatement"),
-	readAs[*ast.RestartStatement]("RestartStatement"),
-	readAs[*ast.EsiStatement]("EsiStatement"),
-	readAs[*ast.AddStatement]("AddStatement"),
-	readAs[*ast.CallStatement]("CallStatement"),
-	readAs[*ast.ErrorStatement]("ErrorStatement"),
-	readAs[*ast.LogStatement]("LogStatement"),
-	readAs[*ast.ReturnStatement]("ReturnStatement"),
-	readAs[*ast.SyntheticStatement]("SyntheticStatement"),
-	readAs[*ast.SyntheticBase64Statement]("SyntheticBase64Statement"),
-	readAs[*ast.GotoStatement]("GotoStatement"),
-	readAs[*ast.GotoDestinationStatement]("GotoDestinationStatement"),
-	readAs[*ast.FunctionCallStatement]("FunctionCallStatement"),
-}
+// plugReaders (one instantiation per member of the plugin.LintStatement union, in the order of the union) is
+// generated before the build from plugin/linter.go: codec_plugin_inst.go (lib/pregen_codec.py); the check
+// compares the names with the regenerated Gen/CodecPlugin.v lint_statement_types
 
 // every instantiation on the same bytes:  "<ok T sexp ...|none> | rest <distinct other results, sorted>"
 func plugAll(b []byte) string {
@@ -224,7 +195,7 @@ func annotations(m *ast.Meta) int {
 // e2e <inject|text> <hex source of a complete VCL>
 //   inject: every statement node gets the annotation comment appended to its leading comments after parsing
 //   text  : the annotations are the ones written in the source
-// reply: "e2e calls <n> expected <m> extra <list> missing <list> fails <list>"
+// reply: "e2e calls <n> expected <m> extra <k> <list> missing <list> fails <k> <list> unreadable <list>"
 func codecE2E(mode string, src []byte) string {
 	dir := os.Getenv("VERIF_PLUGIN_DIR")
 	if dir == "" {
@@ -265,12 +236,16 @@ func codecE2E(mode string, src []byte) string {
 	l := linter.New(&config.LinterConfig{})
 	l.Lint(vcl, lcontext.New())
 	calls := 0
-	var extra, fails []string
+	var extra, fails, unreadable []string
 	for _, e := range l.Errors {
 		switch {
 		case strings.HasPrefix(e.Message, echoPrefix):
 			calls++
 			msg := strings.TrimPrefix(e.Message, echoPrefix)
+			if strings.HasPrefix(msg, "none | rest type:") {
+				// the linter started a plugin on a statement no instantiation of ReadLinterRequest accepts
+				unreadable = append(unreadable, strings.TrimPrefix(msg, "none | rest type:"))
+			}
 			if expected[msg] > 0 {
 				expected[msg]--
 			} else {
@@ -302,8 +277,9 @@ func codecE2E(mode string, src []byte) string {
 		}
 		return "[" + strings.Join(l, " ;; ") + "]"
 	}
-	return fmt.Sprintf("e2e calls %d expected %d extra %d %s missing [%s] fails %d %s",
-		calls, total, len(extra), clip(extra), strings.Join(ms, " "), len(fails), clip(fails))
+	sort.Strings(unreadable)
+	return fmt.Sprintf("e2e calls %d expected %d extra %d %s missing [%s] fails %d %s unreadable [%s]",
+		calls, total, len(extra), clip(extra), strings.Join(ms, " "), len(fails), clip(fails), strings.Join(unreadable, " "))
 }
 
 // codecplug command:
